@@ -29,6 +29,8 @@ package key
 //@   ensures [certificates-only] err == nil ==> (result0 != nil && certBlob(blobid(key)))
 //@   ensures [same-blob] err == nil ==> certid(result0) == blobid(key)
 //@   ensures !certBlob(blobid(key)) ==> err != nil
+//@   ensures [other-keys-are-reparsed-from-their-blob] typeof(key) != *ssh.Certificate ==> ((err == nil <==> (certBlob(blobid(key)) && parseOKid(blobid(key)))) &&
+//@     (err == nil ==> result0.KeyId == certKeyId(blobid(key))))
 //@   ensures [certificate-objects-are-handed-back] (typeof(key) == *ssh.Certificate && certBlob(blobid(key))) ==> (err == nil && result0 == key.(*ssh.Certificate))
 //@ # blob identity of a *ssh.Certificate (as a PublicKey)
 //@ ghost func certid(c *ssh.Certificate) int = blobid(asKey(c))
